@@ -340,9 +340,10 @@ static void sk_case(uint64_t idx, void *ctx)
     mc_outcome((uint64_t) NGOT * 7 + idx);
 }
 /* ---- values are expanded before a line is delivered: a variable set to the empty string is set (the two-word %get gives its value, not the fallback) */
-static const char *XQ[][2] = { { "k 'a\"b' $V ~", "k 'a\"b' val /h" }, { "k \"it\" '$V' \"$V\" ~", "k \"it\" '$V' \"val\" /h" }, { "k '\"' \"$V\" '\"' ~", "k '\"' \"val\" '\"' /h" } };
+static const char *XQ[][2] = { { "k 'a\"b' $V ~", "k 'a\"b' val /h" }, { "k \"it\" '$V' \"$V\" ~", "k \"it\" '$V' \"val\" /h" }, { "k '\"' \"$V\" '\"' ~", "k '\"' \"val\" '\"' /h" },
+    { "k %put(b 1)%put(\xe9t 2)%put(\x80 3)[%get(\xe9t)][%get(b)][%get(\x80)]", "k [2][1][3]" } };       /* variable names that start with bytes above 0x7f, next to an ASCII one */
 #define NXQ ((int) (sizeof XQ / sizeof XQ[0]))
-static void xv_desc(uint64_t idx, void *ctx, char *b, size_t n) { (void) ctx; if (idx >= 2) { snprintf(b, n, "file [begin A] [%s] [end] with V=val and HOME=/h: a double quote between single quotes is an ordinary character", XQ[idx - 2][0]); return; } snprintf(b, n, idx ? "file [begin A] [%%put(e \"\")] [x=%%get(e blue)] [y=%%get(unset blue)] [end]" : "file [begin A] [%%put(e v)] [x=%%get(e blue)] [y=%%get(unset blue)] [end]"); }
+static void xv_desc(uint64_t idx, void *ctx, char *b, size_t n) { (void) ctx; if (idx >= 2) { char e[300]; mc_esc(XQ[idx - 2][0], strlen(XQ[idx - 2][0]), e, sizeof e); snprintf(b, n, "file [begin A] [%s] [end] with V=val and HOME=/h: quotes inside quotes are ordinary characters, variable names may start with any byte", e); return; } snprintf(b, n, idx ? "file [begin A] [%%put(e \"\")] [x=%%get(e blue)] [y=%%get(unset blue)] [end]" : "file [begin A] [%%put(e v)] [x=%%get(e blue)] [y=%%get(unset blue)] [end]"); }
 static void xv_case(uint64_t idx, void *ctx)
 {
     (void) ctx; const char *shape = "line with %put / %get"; mc_set_shape(shape);
@@ -397,7 +398,8 @@ static void nr_case(uint64_t idx, void *ctx)
 static void sp_desc(uint64_t idx, void *ctx, char *b, size_t n)
 {
     (void) ctx;
-    if (idx < 4) snprintf(b, n, "spifconf_parse(\"main.cfg\", %s, %s) with main.cfg = [begin A] [%%include rel.cfg] [t1] [end] in a directory other than the current one", idx & 1 ? "dir" : "NULL", idx & 2 ? "\"/nonexistent:dir\"" : "\"dir\"");
+    if (idx >= 6) snprintf(b, n, "spifconf_parse(\"main.cfg\", NULL, %s) with main.cfg = [begin A] [%%include rel.cfg] [t1] [end]: a search-path entry written with a trailing slash", idx == 6 ? "\"dir/\") after a lookup through a 250-character path" : "\"<250-character directory that does not exist>:dir/\"");
+    else if (idx < 4) snprintf(b, n, "spifconf_parse(\"main.cfg\", %s, %s) with main.cfg = [begin A] [%%include rel.cfg] [t1] [end] in a directory other than the current one", idx & 1 ? "dir" : "NULL", idx & 2 ? "\"/nonexistent:dir\"" : "\"dir\"");
     else snprintf(b, n, "parse a file with the magic of the program name, rename the program, parse a file with the new magic%s", idx == 5 ? " from an %include" : "");
 }
 static void sp_case(uint64_t idx, void *ctx)
@@ -406,15 +408,18 @@ static void sp_case(uint64_t idx, void *ctx)
     char dir[300], path[700], data[600], cwd0[PATH_MAX], cwd1[PATH_MAX];
     snprintf(dir, sizeof dir, "%s/sp-%d", scratch(), (int) getpid()); mkdir(dir, 0700);
     setup();
-    if (idx < 4) {
+    if (idx < 4 || idx >= 6) {
         const char *shape = "file found through a search path"; mc_set_shape(shape);
+        int slash = idx >= 6, use_dir = idx < 4 && (idx & 1);
+        static const char LONGP[] = "/nonexistent/verif/a-directory-name-that-is-much-longer-than-the-scratch-directory-of-this-run/0123456789/0123456789/0123456789/0123456789/0123456789/0123456789/0123456789/0123456789/0123456789/0123456789/0123456789/0123456789/0123456789";
+        if (idx == 6) { spif_charptr_t f = spifconf_find_file((spif_charptr_t) "nosuch.cfg", NULL, (spif_charptr_t) LONGP); if (f) FAIL("spifconf_find_file", "model:return", shape, "a file was found in a directory that does not exist"); }      /* an earlier, longer lookup in the same process */
         snprintf(path, sizeof path, "%s/main.cfg", dir); snprintf(data, sizeof data, "<verif-1.0>\nbegin A\n%%include rel.cfg\nt1\nend\n"); write_file(path, data, strlen(data));
         snprintf(path, sizeof path, "%s/rel.cfg", dir); snprintf(data, sizeof data, "<verif-1.0>\n  t2 two  \n"); write_file(path, data, strlen(data));
         m_line(L_BEGIN_A); m_line(L_T2); m_line(L_T1); m_line(L_END);
-        char plist[700]; snprintf(plist, sizeof plist, "%s%s", idx & 2 ? "/nonexistent/verif:" : "", dir);
+        char plist[900]; if (slash) snprintf(plist, sizeof plist, "%s%s%s/", idx == 7 ? LONGP : "", idx == 7 ? ":" : "", dir); else snprintf(plist, sizeof plist, "%s%s", idx & 2 ? "/nonexistent/verif:" : "", dir);
         if (!getcwd(cwd0, sizeof cwd0)) cwd0[0] = 0;
         g_env_on = 1; g_ledger_on = 1; g_allow_fork = 0;
-        spif_charptr_t r = (idx & 1) ? spifconf_parse((spif_charptr_t) "main.cfg", (spif_charptr_t) dir, (spif_charptr_t) "/nonexistent/verif") : spifconf_parse((spif_charptr_t) "main.cfg", NULL, (spif_charptr_t) plist);
+        spif_charptr_t r = use_dir ? spifconf_parse((spif_charptr_t) "main.cfg", (spif_charptr_t) dir, (spif_charptr_t) "/nonexistent/verif") : spifconf_parse((spif_charptr_t) "main.cfg", NULL, (spif_charptr_t) plist);
         g_env_on = 0; g_ledger_on = 0; g_allow_fork = 1;
         if (!getcwd(cwd1, sizeof cwd1)) cwd1[0] = 0;
         if (!r) FAIL("spifconf_parse", "model:return", shape, "returned NULL for a file that is in the search path"); else FREE(r);
@@ -453,7 +458,7 @@ int main(int argc, char **argv)
     mc_e2_level("depth", 255, 255 * 2, d_case, d_desc, NULL);
     mc_e2_level("include_chain", 30, 30, i_case, i_desc, NULL);
     mc_e2_level("long_lines", 61447, 60, ll_case, ll_desc, NULL);
-    mc_e2_level("search_path_and_name", 1, 6, sp_case, sp_desc, NULL);
+    mc_e2_level("search_path_and_name", 1, 8, sp_case, sp_desc, NULL);
     for (g_n = 1; g_n <= 2; g_n++) mc_e2_level("argv_lines", g_n, mc_words_of_len(NAV, g_n), av_case, av_desc, NULL);
     mc_e2_level("argv_lines_in_open_context", 2, (uint64_t) NAV2 * 2, av2_case, av2_desc, NULL);
     mc_e2_level("skip_to_end", 1, NSKIPV, sk_case, sk_desc, NULL);
